@@ -2446,7 +2446,15 @@ impl<'a> Model<'a> {
                     return Ok(());
                 }
                 // We try to parse as boolean
-                if let Ok(v) = value.to_lowercase().parse::<bool>() {
+                let lower = value.to_lowercase();
+                let localized = if lower == self.language.booleans.r#true.to_lowercase() {
+                    Some(true)
+                } else if lower == self.language.booleans.r#false.to_lowercase() {
+                    Some(false)
+                } else {
+                    lower.parse::<bool>().ok()
+                };
+                if let Some(v) = localized {
                     let worksheet = self.workbook.worksheet_mut(sheet)?;
                     worksheet.set_cell_with_boolean(row, column, v, new_style_index)?;
                     return Ok(());
